@@ -2,22 +2,34 @@
 import os
 import vf
 
-LEVEL_TEXT = ('bounded symbolic model checking of contrib/integer.hpp compiled from the real headers: (i) step lemma: accumulate_digit<I,Max> for '
-              'EVERY accumulator value and digit against 128-bit arithmetic; (ii) loop glue: accumulate_digits / convert_positive / convert_negative / '
-              'convert_unsigned / convert_signed on symbolic digit strings (all strings up to one digit beyond the width for 8/16-bit, bounded for '
-              '32/64-bit plus boundary neighbourhoods with symbolic low digits, from every accumulator start state); (iii) unsigned_rule, '
-              'unsigned_rule_with_action, maximum_rule, maximum_rule_with_action, signed_rule, signed_rule_with_action and unsigned_action / '
-              'maximum_action / signed_action on symbolic BYTES with arbitrary trailing byte or end of input, all apply/rewind modes, against the '
-              'documented numeral grammar, exact value, overflow outcome (parse_error or local failure) and cursor restoration')
+LEVEL_TEXT = ('bounded symbolic model checking (CBMC on the ll2c translation of the clang IR of the real headers) of contrib/integer.hpp: '
+              '(i) step lemma: accumulate_digit<I,Max> from EVERY accumulator value and digit against 64/128-bit arithmetic, for u8..u64, s8..s64 and '
+              'Maximum values at the type maximum, the convert_negative limit, small values and powers of ten +-1; '
+              '(ii) loop glue: accumulate_digits (from every accumulator start value), convert_positive, convert_unsigned, convert_negative, '
+              'convert_signed on symbolic digit strings: all strings up to one digit beyond the width for 8/16-bit, bounded strings for 32/64-bit '
+              'plus boundary neighbourhoods (concrete high digits, 6-8 symbolic low digits, up to width+1 digits); these units are compiled with '
+              '-ftrapv so that source-level signed overflow is a reachable trap; '
+              '(iii) unsigned_rule, unsigned_rule_with_action, maximum_rule, maximum_rule_with_action, signed_rule, signed_rule_with_action, and '
+              'unsigned_action / maximum_action / signed_action attached to the plain rules, on symbolic BYTES in an exact-size buffer with symbolic '
+              'length and start offset (arbitrary trailing byte or end of input), per apply/rewind mode, against the documented numeral grammar '
+              '("0" | [1-9][0-9]*, optional sign for the signed rules, no superfluous leading zeros), exact stored value, overflow outcome '
+              '(parse_error or local failure), consumed length, cursor restoration on local failure, line/column, and state untouched when no '
+              'conversion is requested')
 
 ASSUMPTIONS = [
-    'C15: the parse_error constructor (message/position formatting through std::ostringstream) is replaced in the IR build by an external that the '
-    'harness models as "overflow reported" (harness/c15_models.h, harness/c15_common.hpp); allocation, throw, unwinding through the rule frames and the '
-    'catch clause are real IR; the g++ build used for translation validation and replay runs the real constructor',
-    'C15: std::string::_M_create is modelled as malloc(capacity + 1)',
-    'C15: 32/64-bit targets: digit strings longer than the stated bounds are covered by the step lemma (all accumulator states) plus induction over the '
-    'digit loop, and by boundary neighbourhoods (concrete high digits of Max-1/Max/Max+1, symbolic low digits)',
-    'C15: positions carried by parse_error are not compared (C05/C19)',
+    'C15: the parse_error constructor (message/position formatting through std::ostringstream) is replaced, in the clang/IR build only, by an '
+    'external that the harness models as "overflow reported" (harness/c15_common.hpp, harness/c15_models.h); exception allocation, the '
+    'std::string temporary, throw, unwinding through the rule frames and the catch clause are real IR; the g++/ASan/UBSan build used for translation '
+    'validation and replay runs the real constructor; position and message carried by the parse_error are not compared (C05/C19)',
+    'C15: std::string::_M_create is modelled as malloc(capacity + 1) (lib/models.h); std::runtime_error destructor/what() are only referenced from '
+    'never-called destructors',
+    'C15: 32/64-bit targets: digit strings longer than the per-query bound are covered by the step lemma (every accumulator state) plus induction over '
+    'the digit loop (the loop body does not depend on the position), and by the boundary neighbourhoods; 8/16-bit targets are exhaustive up to '
+    'width+1 digits',
+    'C15: accumulators handed to kernels of a signed Integer are non-negative (convert_positive starts at 0 and only adds)',
+    'C15: rules are run on memory_input< tracking_mode::eager, eol::lf_crlf, const char* > with control normal<>; other inputs are the subject of C07',
+    'C15: source-level signed-overflow UB is checked (-ftrapv traps asserted unreachable) in the conversion-kernel units only; the rule units use the '
+    'plain -O1 IR',
 ]
 
 UT = {8: 'unsigned char', 16: 'unsigned short', 32: 'unsigned int', 64: 'unsigned long'}
@@ -253,7 +265,7 @@ def conv_queries(ctx, qs, bits, signed, quick):
     keep = (tmax, smax_mag, 10, 100, 1000, 10 ** 9, 10 ** 18, 10 ** 19)
     loopmaxes = maxes if not quick else [m for m in maxes if m in keep]
     unit = conv_unit(ctx, bits, signed, maxes, loopmaxes)
-    after = [('o[0] == 1', 'kernel returned true'), ('o[0] == 0', 'kernel returned false')]
+    after = [('cv_ret == 1', 'kernel returned true')]
     # (i) step lemma: one query for all Maximum values of the type
     calls = [('step_%s_%d' % (tn, m), 'C15_STEP(w_step_%s_%d, %s)' % (tn, m, lit(m)), [], [('cv_ok', 'step fits'), ('!cv_ok', 'step overflows')], False) for m in maxes]
     h = ctx.write('k_step_%s.c' % tn, conv_harness(bits, signed, calls))
@@ -266,9 +278,9 @@ def conv_queries(ctx, qs, bits, signed, quick):
         C = []
         for m in ms:
             if with_digits:
-                C.append(('digits_%s_%d' % (tn, m), 'C15_DIGITS(w_digits_%s_%d, %s, %%(wit)s)' % (tn, m, lit(m)), fold_wit(m, NLx, prefix, True), [], False))
+                C.append(('digits_%s_%d' % (tn, m), 'C15_DIGITS(w_digits_%s_%d, %s, %%(wit)s)' % (tn, m, lit(m)), fold_wit(m, NLx, prefix, True), after, False))
             k = 'cpos' if signed else 'cuns'
-            C.append(('%s_%s_%d' % (k, tn, m), 'C15_%s(w_%s_%s_%d, %s, %%(wit)s)' % (k.upper(), k, tn, m, lit(m)), fold_wit(m, NLx, prefix, False), [], True))
+            C.append(('%s_%s_%d' % (k, tn, m), 'C15_%s(w_%s_%s_%d, %s, %%(wit)s)' % (k.upper(), k, tn, m, lit(m)), fold_wit(m, NLx, prefix, False), after, True))
         if signed and tmax in ms:
             dm, dp = str(smax_mag), str(smax_mag - 1)
             has_min = len(dm) <= NLx and (not prefix or dm.startswith(prefix))
@@ -276,13 +288,13 @@ def conv_queries(ctx, qs, bits, signed, quick):
             R = fold_wit(smax_mag, NLx, prefix, False)
             if has_min:
                 R.append(('cv_ok && cv_v == (cv_val)CV_SMAX + 1', 'input is the most negative value'))
-            C.append(('cneg_%s' % tn, 'C15_CNEG(w_cneg_%s, %%(wit)s)' % tn, R, [], True))
+            C.append(('cneg_%s' % tn, 'C15_CNEG(w_cneg_%s, %%(wit)s)' % tn, R, after, True))
             R = fold_wit(smax_mag - 1, NLx, prefix, False) + [('cv_ok && cv_sign == 1', 'explicit plus sign'), ('cv_ok && cv_sign == 0', 'no sign'), ('cv_ok && cv_sign == 2 && cv_v > 0', 'negative value')]
             if has_min:
                 R.append(('cv_ok && cv_neg && cv_v == (cv_val)CV_SMAX + 1', 'input is the most negative value'))
             if has_max:
                 R.append(('cv_ok && !cv_neg && cv_v == (cv_val)CV_SMAX', 'input is the most positive value'))
-            C.append(('csig_%s' % tn, 'C15_CSIG(w_csig_%s, %%(wit)s)' % tn, R, [], True))
+            C.append(('csig_%s' % tn, 'C15_CSIG(w_csig_%s, %%(wit)s)' % tn, R, after, True))
         return C
 
     def emit(NLx, prefix, tag, ms, with_digits, solver=None):
